@@ -14,7 +14,7 @@
       Filter.Apply                         Model/FilterEval.eval / wrap / match_apply (C06)
       Projection.ProjectValues / Project   Model/Projection.step on OpProjectValues / OpProject (C08)
       Builder.Add / ToTables               Model/BenchTab.build / to_tables    (C14)
-      benchproc.SortKeys                   Model/Sort.sort_keys                (C09)
+      benchproc.SortKeys                   Model/SortR.sort_keys_r             (C09, repaired)
 
     What main.go itself contributes - and what this file therefore states - is
     the ORDER of these calls and which value goes where:
@@ -45,7 +45,7 @@
 From Perf Require Import Base.Bytes Base.B64.
 From Perf Require Model.Name Model.Extract Model.Units Model.Reader Model.Files
   Model.FilterAst Model.FilterParse Model.ProjParse Model.FilterEval
-  Model.Key Model.Projection Model.Sort Model.BenchTab.
+  Model.Key Model.Projection Model.Sort Model.SortR Model.BenchTab.
 
 Record flags := mkFlags {
   fl_filter : bytes; fl_table : bytes; fl_row : bytes; fl_col : bytes; fl_ignore : bytes }.
@@ -306,7 +306,7 @@ Variable pow : bool -> nat -> b64.
 
 (** all Keys of a projection in benchproc.SortKeys order *)
 Definition sorted_keys (p : Projection.projection) : list nat :=
-  Sort.sort_keys sort_parse_float pow p (seq 0 (length (Projection.p_keys p))).
+  SortR.sort_keys_r sort_parse_float pow p (seq 0 (length (Projection.p_keys p))).
 
 Fixpoint pos_in (l : list nat) (k : nat) (i : N) : N :=
   match l with
